@@ -39,4 +39,5 @@ def with_data(r):
 def run(ctx):
     if getattr(ctx, "replay", None):
         return _engine.replay(ctx, "C15", MONITORS)
-    return _engine.run_engine_check(ctx, "C15", PROFILES, MONITORS, n_quick=400, n_thorough=16000, with_data=with_data)
+    return _engine.run_engine_check(ctx, "C15", PROFILES, MONITORS, n_quick=400, n_thorough=16000, with_data=with_data,
+                                    subs=[("C15_data", C15_data)])
